@@ -221,6 +221,9 @@ def main(argv):
         driver_ok, props_ok = (True, True)
         if not a.no_build:
             driver_ok, props_ok = build_and_audit(res, pid, getattr(mod, "EXTRA_MODULES", ()))
+            import logging
+            logging.disable(logging.NOTSET)
+            C.setup_logging()
         ctx = {"driver_ok": driver_ok, "props_ok": props_ok, "replay": None}
         if a.replay:
             ctx["replay"] = json.load(open(a.replay))
